@@ -648,6 +648,13 @@ func c17ConsistencyKeys(c *rt.C, name, keyName, id string) {
 	}
 	if keyName != "" {
 		old := p.PrimaryKeys[0]
+		// no other key may map to the same proto field name (orderID and orderId are both order_id)
+		for _, k := range p.E.Keys {
+			if k.Name != old && strings.EqualFold(k.Name, keyName) {
+				c.Feature("c17:unusual-key-skipped/name-clash")
+				return
+			}
+		}
 		rename := func(fs []*jF) {
 			for _, f := range fs {
 				if f.Name == old {
